@@ -154,7 +154,8 @@ void term_push(char *s, int n)
 {
 	if (ibuf_pos > ibuf_cnt)
 		ibuf_pos = ibuf_cnt;
-	n = MIN(n, sizeof(ibuf) - ibuf_cnt);
+	if (n > sizeof(ibuf) - ibuf_cnt)	/* no room: do not push a part of it */
+		return;
 	/* insert before the input that has not been read yet */
 	memmove(ibuf + ibuf_pos + n, ibuf + ibuf_pos, ibuf_cnt - ibuf_pos);
 	memcpy(ibuf + ibuf_pos, s, n);
